@@ -146,6 +146,24 @@ def bundled_samples(ctx, work: Path):
     return out
 
 
+def corpus_samples(ctx, work: Path):
+    """corpus/C09/*.json : {tag, xyz, mol2} texts (hand-picked inputs and past failures), always run first"""
+    from harness.common import REPO, VERIF
+
+    out = []
+    for p in sorted((VERIF / "corpus" / "C09").glob("*.json")):
+        obj = json.loads(p.read_text())
+        d = work / ("corpus_" + p.stem)
+        d.mkdir(exist_ok=True)
+        fx, fm = d / "corpus.xyz", d / "corpus.mol2"
+        fx.write_text(obj["xyz"])
+        fm.write_text(obj["mol2"])
+        out.append(make_sample({"xyz": fx, "mol2": fm, "cdxml": REPO / "molli" / "files" / "charges_mult.cdxml"}, work,
+                               obj.get("tag", "corpus:" + p.stem), {"xyz": obj["xyz"], "mol2": obj["mol2"]}))
+        ctx.count("samples:corpus")
+    return out
+
+
 def make_sample(files: dict, work: Path, tag: str, texts):
     """objects to dump come from the sample's mol2 file through the class methods (fallback: bundled pentane)"""
     from harness.common import REPO
@@ -488,14 +506,15 @@ def run(ctx):
                     "observed": L.action_key(actions[("dump", "mol2", "stream", "molecule", "notgiven")])})
 
     # ---------------- (2) content agreement ----------------
-    samples = bundled_samples(ctx, work)
+    samples = corpus_samples(ctx, work) + bundled_samples(ctx, work)
     ngen = 6 if ctx.quick() else 120
     with L.Spy() as spy:
         for i in range(len(samples) + ngen):
             ctx.check_deadline()
             if i < len(samples):
                 s = samples[i]
-                ctx.count("samples:bundled")
+                if s.tag.startswith("bundled"):
+                    ctx.count("samples:bundled")
             else:
                 s = generated_sample(ctx, work, i)
                 ctx.count("samples:generated")
